@@ -38,6 +38,7 @@ func runC19(c *core.Ctx, r *core.Reporter) {
 	c19nilslot(c, r)
 	c19callhead(c, r)
 	c19callpkg(c, r)
+	c19headidentity(c, r)
 	c19snappkg(c, r)
 	c19spectype(c, r)
 	c19docescape(c, r)
